@@ -297,6 +297,13 @@ WITNESSES = [
     ("shl", "int8", "uint8", 64, 255),
     ("tmod", "int8", "int8", -128, -1),
     ("tdiv", "int8", "int8", -128, -1),
+    ("unm", "int64", None, -9223372036854775808, None),
+    ("shl", "int8", "int8", -1, -8),
+    ("shr", "uint8", "uint8", 64, 255),
+    ("tdiv", "int32", "uint32", -128, 2),
+    ("tmod", "int64", "uint64", -7, 2),
+    ("tdiv", "int64", "int64", -9223372036854775808, -1),      # still rejected: the run time is undefined there
+    ("shl", "uint64", "uint64", 82, 18446744073709551615),     # still wrong at run time (known finding)
 ]
 
 
@@ -384,7 +391,9 @@ def classify(op, lt, rt, a, b, F, R, E):
         return "fold-rejects-min-by-minus-one:" + op
     if T and E is not None and not isinstance(E, bool) and R[2] != wrap(T, E):
         if op in SHIFTOPS:
-            return "runtime-shift-count-narrowed-to-left-type:" + op
+            if b >= (1 << 63):
+                return "runtime-shift-count-uint64-above-int64:" + op
+            return "runtime-shift-count-narrowed:" + op
         return "runtime-mixed-signedness-in-plain-C-operator:" + op
     if op in CMPOPS:
         return "comparison:" + op
@@ -511,7 +520,8 @@ def correspond(ctx):
             if R[0] == "V" and operands_in_T and R[2] != wrap(T, E):
                 problems.append("run time gives %d, the exact result %d reduced to %s is %d" % (R[2], E, T, wrap(T, E)))
             if F[0] == "E":
-                problems.append("constant expression is rejected (%s) although the exact result is %d" % (F[1], E))
+                if R[0] != "X":      # rejected although the run time computes a value
+                    problems.append("constant expression is rejected (%s) although the exact result is %d and the run time gives %s" % (F[1], E, R))
             elif F[0] == "T" and R[0] == "V":
                 tp, v = F[1], F[2]
                 bk = baked_impl.get((tp, v), (None, None))[0]
@@ -571,7 +581,20 @@ def correspond(ctx):
                 val = eval(re.sub(r"(?<=[0-9a-fA-F])[uUlL]+\b", "", txt)) if txt else None
             except Exception:
                 val = None
-            mv = unhx(m[2:]) if m.startswith("V ") else None
+            mv = unhx(m[2:].split()[0]) if m.startswith("V ") else None
+            # C type of the emitted literal token (C11 6.4.4.1) against the model of the suffix rule
+            if txt:
+                toks = re.findall(r"(?:0[xX][0-9a-fA-F]+|\d+)[uUlL]*", txt)
+                try:
+                    cty = cparse.literal(toks[0])[1] if toks else None
+                except cparse.Unsupported:
+                    cty = None
+                mty = m.split()[2:4] if m.startswith("V ") and len(m.split()) >= 4 else None
+                if cty is not None and mty is not None and [str(cty[0]), "1" if cty[1] else "0"] != mty:
+                    n_mismatch += 1
+                    violation("model-mismatch:literal-ctype", "add_scalar_literal(%d, %s) prints `%s`, a C constant of type %s%d; the model of the suffix rule says %s%s" %
+                              (v, t, txt, "int" if cty[1] else "uint", cty[0], "int" if mty[1] == "1" else "uint", mty[0]),
+                              {"case": inp, "implementation": o, "model": m, "no_longer_checks": "correspondence stream C02/literal C type"}, failing=False, kind="correspondence")
             if val is None or val != mv:
                 n_mismatch += 1
                 violation("model-mismatch:literal", "add_scalar_literal(%d, %s) prints `%s` (= %s), model bakes %s" % (v, t, txt, val, mv),
@@ -734,6 +757,32 @@ def bisect_rejected(probes, workdir, limit=6):
     return found
 
 
+# half-constant forms always probed: 64 bit constants in [2^31,2^32) and [2^63,2^64) (and small ones)
+# against run-time operands of at most 32 bits, for + - * (the C literal of the constant may be a
+# 32 bit one: the operation must still be done in the result type), plus the repaired witnesses
+def _half_constant_witnesses():
+    out = []
+    consts = {"uint64": [2147483648, 2147483653, 4294967295, 4294967294, 9223372036854775808, 9223372036854775813, 18446744073709551615, 5],
+              "usize": [4294967295, 18446744073709551615],
+              "int64": [2147483648, 4294967295, -2147483649, -4294967296, 9223372036854775807, -9223372036854775808, -65],
+              "isize": [4294967295, -65]}
+    small = {"uint32": [3, 4294967295], "uint16": [3, 65535], "uint8": [3, 255], "int32": [-10, 3, 2147483647], "int16": [-2, 127], "int8": [-63, 5]}
+    for op in ("add", "sub", "mul"):
+        for ct, cvals in consts.items():
+            for st, svals in small.items():
+                for c in cvals:
+                    for v in svals[:2]:
+                        out.append((op, st, ct, v, c))      # right operand constant (h1), left constant via h2 of the mirrored probe
+                        out.append((op, ct, st, c, v))
+    import random
+    random.Random(7).shuffle(out)
+    return out[:160] + [("add", "uint32", "uint64", 3, 4294967295), ("mul", "uint32", "uint64", 3, 4294967295), ("add", "int32", "uint64", -10, 5),
+                        ("sub", "isize", "uint32", -65, 128), ("tdiv", "int16", "uint64", -2, 32767), ("bor", "isize", "uint32", -256, 4294967295)]
+
+
+HALF_CONSTANT_WITNESSES = _half_constant_witnesses()
+
+
 def probe_stream(ctx, mdriver, violation):
     """Generate, compile (real compiler) and run probe programs; compare with fold/rt model and oracle."""
     rng = ctx.rng
@@ -772,7 +821,9 @@ def probe_stream(ctx, mdriver, violation):
                 expect_reject.append(c)
         elif w[0] == "B":
             probes.append((c, mo))
-    probes = probes[:nprog * per]
+    probes = probes[:nprog * per - len(HALF_CONSTANT_WITNESSES)]
+    hw_in = ["fold %s %s %s %s %s 0 0" % (op, tb(lt), tb(rt), hx(a), hx(b)) for (op, lt, rt, a, b) in HALF_CONSTANT_WITNESSES]
+    probes = list(zip(HALF_CONSTANT_WITNESSES, run_parallel([mdriver], hw_in, 1))) + probes
     nfloat = ctx.scale(300, 2400)
     fl = [(c, "F") for c in float_candidates(rng, nfloat)]
     probes += fl
